@@ -7,7 +7,7 @@ claim('C16', 'model_checking',
       'from trailing bytes, truncation and round trips on the specification; each state is then one conformance case for '
       'struct_parse on the real primitives. Small-scope exhaustive plus seeded simulation to 20-byte encodings.',
       'trusts TLC, the 5-line denote() from digit/group strings to Python ints, and the transcription of DWARF 7.4/7.6 in Bytes.tla; '
-      'initial lengths 0xffffff00..0xffffffef are reserved in DWARF 2-4 and valid in DWARF 5, both answers accepted',
+      'initial lengths 0xffffff00..0xffffffef are reserved in DWARF 2-4 and valid in DWARF 5: decoders configured for versions 2-4 must reject them, for version 5 both answers are accepted',
       'DESIGN.md 5/C16')
 claim('C17', 'other',
       'vendored registry as TLA+ data (spec/RegistryData.tla from glibc elf.h + LLVM BinaryFormat); every exported (table, name, value) '
